@@ -66,6 +66,17 @@ func runC02(w *worker) func(c c02Case) *Failure {
 		if f != nil {
 			return f
 		}
+		// the same value passed as a struct (copied by the library) must give the same encoding
+		outV, f := encodeExact(src.Elem().Interface())
+		if f != nil {
+			f.Msg = "value passed by value: " + f.Msg
+			return f
+		}
+		if cp, err1 := core.Canon(out); err1 == nil {
+			if cv, err2 := core.Canon(outV); err2 != nil || !bytes.Equal(cp, cv) {
+				return failf("byvalue-encoding-differs", "EncodeObject(v) differs from EncodeObject(&v)\n by value:   %s\n by pointer: %s", hexs(outV), hexs(out))
+			}
+		}
 		// (b) strict schema-less parse: well-formed, consumed exactly
 		tree, used, err := core.ParseStruct(out, 1<<20)
 		if err != nil {
